@@ -6,6 +6,7 @@ import (
 	"sync"
 
 	"github.com/deepteams/webp/internal/bitio"
+	"github.com/deepteams/webp/internal/verifhook"
 )
 
 var boolWriterPool sync.Pool
@@ -21,6 +22,7 @@ func getBoolWriter(expectedSize int) *bitio.BoolWriter {
 
 func putBoolWriter(bw *bitio.BoolWriter) {
 	boolWriterPool.Put(bw)
+	verifhook.PoolPut("lossy.boolWriter")
 }
 
 // emitFrame assembles the complete VP8 bitstream from the encoded data.
